@@ -256,7 +256,7 @@ Theorem run_op_actions o c :
   data (fst (run_op o c)) = apply_actions (op_actions o (metrics c)) (data c) /\
   metrics (fst (run_op o c)) = op_metrics o (metrics c).
 Proof.
-  destruct o as [fold kvs|desc alt fold kvs|desc fold kvs|sect desc kvs|sect desc params|key|ks|key|names|ks b|ks b|ks t];
+  destruct o as [fold kvs|desc alt fold kvs|desc fold kvs|sect desc kvs|sect desc params|sect desc html|key|ks|key|names|ks b|ks b|ks t];
     cbn [run_op op_actions op_metrics].
   - cbn [fst data metrics set_data]. split; [apply add_texts_actions|reflexivity].
   - pose proof (add_plots_actions desc alt fold kvs (data c)) as H.
@@ -264,6 +264,7 @@ Proof.
   - pose proof (add_tables_actions desc fold kvs (data c)) as H.
     destruct (add_tables desc fold kvs (data c)) as [d r]. cbn [fst data metrics set_data] in *. auto.
   - cbn [fst data metrics]. split; reflexivity.
+  - cbn [fst data metrics set_data]. split; reflexivity.
   - cbn [fst data metrics set_data]. split; reflexivity.
   - destruct (card_select key (data c)); cbn [fst]; split; reflexivity.
   - destruct (chain_select ks (data c)) as [[p x]|e]; cbn [fst]; split; reflexivity.
@@ -335,7 +336,7 @@ Qed.
 
 Lemma op_actions_ok o m : Forall action_ok (op_actions o m).
 Proof.
-  destruct o as [fold kvs|desc alt fold kvs|desc fold kvs|sect desc kvs|sect desc params|key|ks|key|names|ks b|ks b|ks t];
+  destruct o as [fold kvs|desc alt fold kvs|desc fold kvs|sect desc kvs|sect desc params|sect desc html|key|ks|key|names|ks b|ks b|ks t];
     cbn [op_actions].
   - induction kvs as [|kv kvs IH]; cbn [map]; constructor; [|exact IH].
     split; [apply split_names_nonnil | reflexivity].
@@ -343,6 +344,7 @@ Proof.
     destruct (is_empty path); constructor; [|exact IH]. split; [apply split_names_nonnil | reflexivity].
   - induction kvs as [|[key t] kvs IH]; cbn [table_actions]; [constructor|].
     destruct t; constructor; [|exact IH]. split; [apply split_names_nonnil | reflexivity].
+  - constructor; [|constructor]. split; [apply split_names_nonnil | reflexivity].
   - constructor; [|constructor]. split; [apply split_names_nonnil | reflexivity].
   - constructor; [|constructor]. split; [apply split_names_nonnil | reflexivity].
   - constructor.
